@@ -198,6 +198,11 @@ def apply_operator(draw, op, mol: Mol):
                 i = a + m.end()
                 if text[:i].count("[") == text[:i].count("]"):
                     cands.append(i)
+            # ... or directly behind a closed branch, in front of the next chain atom: 'CC(C)' + [$] + 'CC'
+            for m in re.finditer(r"\)(?=(C|N|O|S|P|B|F|I)(?![a-z]))", text[a:b]):
+                i = a + m.end()
+                if text[:i].count("[") == text[:i].count("]") and text[a:i].count("(") == text[a:i].count(")"):
+                    cands.append(i)
         if not cands:
             return None
         k = draw(st.sampled_from(cands))
